@@ -360,7 +360,15 @@ impl<'tcx> Runner<'tcx> {
     pub fn run_root(&mut self, ri: usize, job: &Job) -> (Option<Val>, Vec<String>) {
         let (inst, env) = self.roots[ri];
         let name = self.names[ri].clone();
-        let module = name.split("::").find(|s| s.starts_with("ml_dsa_")).unwrap_or("").trim_start_matches('<').to_string();
+        let mut module = name.split("::").find(|s| s.starts_with("ml_dsa_")).unwrap_or("").trim_start_matches('<').to_string();
+        if module.is_empty() {
+            // trait-default roots (`traits::Signer::try_sign::<types::PrivateKey<6_usize, 5_usize>>`): the parameter set is in the generics
+            for (kl, m) in [("<4_usize, 4_usize>", "ml_dsa_44"), ("<6_usize, 5_usize>", "ml_dsa_65"), ("<8_usize, 7_usize>", "ml_dsa_87")] {
+                if name.contains(kl) {
+                    module = m.to_string();
+                }
+            }
+        }
         let saved_root = std::mem::replace(&mut self.ip.cur_root, job.id.clone());
         let saved_env = std::mem::replace(&mut self.ip.env, env);
         let saved_rng = self.ip.rng_mode;
